@@ -244,7 +244,7 @@ def quota_gaps(prods, required):
 # C03 leg: ownership conservation over generated APIs
 # --------------------------------------------------------------------------
 
-def conservation(lines):
+def conservation(lines, expected=None):
     """Independent offline checker over the observed event log: every NEW id is DROPped exactly once,
     nothing refers to an id after its DROP, every callback with a destructor is released exactly once."""
     errs = []
@@ -276,6 +276,11 @@ def conservation(lines):
     for ident in born:
         if ident not in dead:
             errs.append("%s never dropped (leak)" % ident)
+    if expected is not None and lines and lines[-1] == "END":
+        # callbacks handed over with a destructor (the script knows which): each must have been released by the end of the history
+        for l in expected:
+            if l.startswith("CBDROP ") and l[7:] not in cb_dropped:
+                errs.append("callback %s was handed over with a destructor that never ran (leak)" % l[7:])
     return errs, len(born), len(cb_dropped)
 
 
@@ -317,7 +322,7 @@ def c03_leg(chk, tier, seed):
         stats["programs_miri"] += 1 if r.get("lang") == "miri" else 0
         stats["calls"] += r["calls"]
         got = r.get("observed_lines") or []
-        errs, nobj, ncb = conservation(got)
+        errs, nobj, ncb = conservation(got, r["script"].expected if r.get("script") else None)
         stats["objects_tracked"] += nobj
         stats["callbacks_released"] += ncb
         hist.add("".join({"C": "c", "N": "n", "D": "d", "R": "r"}.get(l[:1], "") for l in got if l[:4] in ("CALL", "NEW ", "DROP", "CBDR")))
